@@ -2,8 +2,9 @@ package pevm
 
 import (
 	"fmt"
-	"os"
 	"math/big"
+	"os"
+	"strings"
 	"sync"
 	"testing"
 
@@ -36,15 +37,15 @@ type c29Op struct {
 }
 
 type c29Case struct {
-	Router   string  `json:"router"`
-	List     []int   `json:"list"` // validator list carried by the trust-root header (key indices)
-	Prev     []int   `json:"prev"` // list in force before it
-	GNum     uint64  `json:"gnum"` // trust-root height
-	GCoin    int     `json:"gcoin"`
-	EvmID    uint64  `json:"evmid"`
-	Period   uint64  `json:"period"`
-	Epoch    uint64  `json:"epoch,omitempty"` // msc: checkpoint interval
-	Ops      []c29Op `json:"ops"`
+	Router string  `json:"router"`
+	List   []int   `json:"list"` // validator list carried by the trust-root header (key indices)
+	Prev   []int   `json:"prev"` // list in force before it
+	GNum   uint64  `json:"gnum"` // trust-root height
+	GCoin  int     `json:"gcoin"`
+	EvmID  uint64  `json:"evmid"`
+	Period uint64  `json:"period"`
+	Epoch  uint64  `json:"epoch,omitempty"` // msc: checkpoint interval
+	Ops    []c29Op `json:"ops"`
 }
 
 var c29Muts = []string{"outsider", "outsider", "recent", "recent", "diff-flip", "diff-flip", "diff-bad", "coinbase", "coinbase",
@@ -91,6 +92,9 @@ func genC29(t *rapid.T) c29Case {
 		GCoin:  rapid.IntRange(0, nSealerKeys-1).Draw(t, "gcoin"),
 		EvmID:  uint64(rapid.SampledFrom([]int{1, 56, 97, 128, 256, 666, 6626}).Draw(t, "evmid")),
 		Period: uint64(rapid.IntRange(0, 3).Draw(t, "period")),
+	}
+	if r := os.Getenv("PEVM_ROUTER"); r != "" {
+		c.Router = r // development aid only: pin the router (never set by the driver)
 	}
 	c.Epoch = uint64(rapid.IntRange(3, 12).Draw(t, "epoch"))
 	if rapid.IntRange(0, 2).Draw(t, "prev=list") == 0 {
@@ -427,10 +431,21 @@ func runC29(ctx *ev.Ctx, c c29Case) {
 				}
 				if !on.ok && ad.kind == "clique" && on.why == whyUnauthorised {
 					// known finding of the msc router: is membership the ONLY violated clause?
-					if ok2, _, set2 := m.cliqueCheckOpt(n.parent, n.h, true); ok2 {
+					if ok2, _, set2 := m.cliqueCheckOpt(n.parent, n.h, true, false); ok2 {
 						if ctx.Known(keyMscUnauthorised, "msc stored header %x (height %v, op %s, difficulty %v) sealed by key %d, which is not among the authorised signers %s; every other rule holds",
 							n.hash[:6], n.h.Number, on.label, n.h.Difficulty, sealerIndex(n.h), fmtSet(m.setInForce(n.parent))) {
 							ctx.Label("known:" + keyMscUnauthorised)
+							set2(n)
+							on.ok = true
+						}
+					}
+				}
+				if !on.ok && ad.kind == "clique" && strings.HasPrefix(on.why, whyRecentPrefix) {
+					// second known finding of the msc router: recent-signer rule skipped after an earlier vote
+					if ok2, _, set2 := m.cliqueCheckOpt(n.parent, n.h, false, true); ok2 {
+						if ctx.Known(keyMscRecent, "msc stored header %x (height %v, op %s) although its %s; signers in force %s; every other rule holds",
+							n.hash[:6], n.h.Number, on.label, on.why, fmtSet(m.setInForce(n.parent))) {
+							ctx.Label("known:" + keyMscRecent)
 							set2(n)
 							on.ok = true
 						}
@@ -446,7 +461,7 @@ func runC29(ctx *ev.Ctx, c c29Case) {
 				m.markStored(n)
 				stats.stored++
 				ctx.Label("stored:" + on.label)
-				if m.setGen(n.parent) > 0 {
+				if m.setGen(n.parent) > 0 || (ad.kind == "bor" && m.borSuccession(n.sealer) > 0) {
 					stats.epochSealed++
 				}
 			case raw == nil && n.stored:
@@ -491,7 +506,7 @@ func runC29(ctx *ev.Ctx, c c29Case) {
 		ctx.NonTrivial()
 	}
 	if stats.epochSealed > 0 {
-		ctx.Label("epoch-change-exercised")
+		ctx.Label("set-change-exercised:" + ad.name)
 	}
 	c29Mu.Lock()
 	c29Cases[ad.name]++
@@ -503,6 +518,7 @@ func runC29(ctx *ev.Ctx, c c29Case) {
 }
 
 const keyMscUnauthorised = "msc-unauthorised-sealer-stored"
+const keyMscRecent = "msc-recent-signer-after-vote-stored"
 
 func sealerIndex(h *types.Header) int {
 	if len(h.Extra) < extraSeal {
@@ -528,10 +544,11 @@ func fmtSet(s []ecommon.Address) string {
 
 func TestC29(t *testing.T) {
 	ev.Drive(t, "C29",
-		"cases: a trust root (validator list 1..9, previous list, height 1..400) for one router of {bsc, bytom, heco, hsc, pixiechain} and 6..44 (thorough 110) ops, "+
+		"cases: a trust root (validator list 1..9, previous list, height 1..400) for one router of {bsc, bytom, heco, hsc, pixiechain, msc, polygon-bor} and 6..44 (thorough 110) ops, "+
 			"each producing one header relative to the harness's model of the header tree: valid extensions of the canonical head, valid forks on earlier headers, "+
 			"headers announcing a new validator list, and headers with exactly one broken rule (outsider / recent signer, wrong difficulty, coinbase != signer, malformed extra, "+
 			"mix digest, uncle hash, gas limit, number, unknown parent, corrupted seal, wrong chain id, early timestamp, forced epoch list); some ops share one transaction. "+
-			"non-trivial: at least one header was stored under a validator set that replaced an earlier one on its branch AND at least one broken header was rejected; distinct by JSON of the case",
+			"msc: Clique chains whose headers may carry add/drop votes and checkpoints every 3..12 blocks; polygon-bor: chains inside one sprint over the producer set of the trust-root snapshot. "+
+			"non-trivial: at least one header was stored under a validator set that replaced an earlier one on its branch (polygon-bor: sealed by a backup producer) AND at least one broken header was rejected; distinct by JSON of the case",
 		genC29, runC29)
 }
